@@ -65,8 +65,9 @@ pub fn gen_bigram_sized(rng: &mut Rng, big_costs: bool, star_listed: bool, nr: u
         7 => 16 + rng.below(4) as usize,
         _ => 1 + rng.below(12) as usize,
     };
-    let pool_r = ["A", "B", "C", "x,y", "q\"t", "", "*", "D", "名詞", "A"];
-    let pool_l = ["a", "b", "A", "x,y", "", "*", "c", "名詞", "d"];
+    // (features with white space at their edges, one that is only U+3000, and one that begins with '#': all plain text)
+    let pool_r = ["A", "B", "C", "x,y", "q\"t", "", "*", "D", "名詞", "A", " A", "#A", "\u{3000}"];
+    let pool_l = ["a", "b", "A", "x,y", "", "*", "c", "名詞", "d", "a ", "b\u{3000}", "#a"];
     let row = |rng: &mut Rng, pool: &[&str]| -> Vec<String> {
         let len = if rng.chance(1, 4) { 1 + rng.below(k as u64) as usize } else { k };
         (0..len)
